@@ -13,7 +13,9 @@ pub const LETTERS: [&str; 19] = ["a", "e", "i", "o", "u", "p", "t", "k", "b", "d
 const VOWELS: [&str; 5] = ["a", "e", "i", "o", "u"];
 const CONS: [&str; 14] = ["p", "t", "k", "b", "d", "s", "z", "m", "n", "l", "r", "j", "w", "h"];
 /// less ordinary segments (several place nodes, pharyngeals, glottals, clicks, diacritics); never the planted q / x
-const RARE: [&str; 22] = ["ħ", "ʕ", "tˤ", "kʷ", "ʔ", "ɡʷ", "pʲ", "ŋ", "ɲ", "ʃ", "t͡s", "ɴǃ", "ɫ", "e̘", "o̙", "ɥ", "t͡ʃ", "d͡ʒ", "p͡f", "ɬ", "ʙ", "ɾ"];
+const RARE: [&str; 28] = ["ħ", "ʕ", "tˤ", "kʷ", "ʔ", "ɡʷ", "pʲ", "ŋ", "ɲ", "ʃ", "t͡s", "ɴǃ", "ɫ", "e̘", "o̙", "ɥ", "t͡ʃ", "d͡ʒ", "p͡f", "ɬ", "ʙ", "ɾ",
+                          // near-misses of the planted q (never q itself): q with a secondary articulation, voiced, aspirated, fricated
+                          "qʷ", "qʲ", "qˤ", "ɢ", "qʰ", "χ"];
 /// tones of every length (1 to 4 digits): joined tones of neighbouring syllables must still be tones
 pub const TONES: [&str; 10] = ["5", "51", "214", "3", "1", "35", "12", "312", "1324", "2143"];
 
@@ -27,6 +29,7 @@ pub fn gen_word_text(rng: &mut Rng, long: bool) -> String {
     let nsyl = 1 + rng.below(4);
     let mut s = String::new();
     let tonal = rng.chance(1, 6);          // a tonal word: (nearly) every syllable carries a tone
+    let lengthy = long && rng.chance(1, 6); // a word full of long and overlong segments
     for i in 0..nsyl {
         match rng.below(5) { 0 => s.push('ˈ'), 1 => s.push('ˌ'), _ => if i > 0 { s.push('.') } }
         let shape = rng.below(6);
@@ -39,7 +42,8 @@ pub fn gen_word_text(rng: &mut Rng, long: bool) -> String {
         let mut prev = "";
         for g in segs {
             if g == prev { if long { s.push('ː'); } else { continue; } } else { s.push_str(g); }
-            if long && rng.chance(1, 8) { s.push('ː'); if rng.chance(1, 4) { s.push('ː'); } }
+            if lengthy { if rng.chance(2, 3) { s.push('ː'); if rng.chance(1, 2) { s.push('ː'); } } }
+            else if long && rng.chance(1, 8) { s.push('ː'); if rng.chance(1, 4) { s.push('ː'); } }
             prev = g;
         }
         if tonal { if !rng.chance(1, 6) { s.push_str(TONES[rng.below(TONES.len())]); } }
@@ -75,7 +79,7 @@ pub struct Outcome { pub out: &'static str, pub detail: String, pub site: i64, p
 /// parses `texts` as one group and applies it to `word`, with a step budget; returns the word after every sub-rule
 pub fn run_rules(texts: &[String], word: &v::Word, budget: u64, ticks: bool) -> Outcome {
     let (t2, w2) = (texts.to_vec(), word.clone());
-    let rec = v::record(budget, false, ticks, move || {
+    let rec = crate::util::rec(budget, false, ticks, move || {
         let rules = v::parse_rules(&[RuleGroup::from_rules(t2)])?;
         v::apply_structural(&rules, w2)
     });
@@ -166,6 +170,31 @@ pub fn classify(prop: &str, text: &str, ast: Option<&Value>, o: &Outcome) -> Opt
     None
 }
 
+#[allow(clippy::too_many_arguments)]
+fn judge_c02(w: &mut Writer, sum: &mut Summary, text: &str, wt: &str, into: &[String], from: &[String], b: u64, kind: &str) {
+    let (text, wt, into, from) = (text.to_string(), wt.to_string(), into.to_vec(), from.to_vec());
+    let (t2, w2, i2, f2) = (text.clone(), wt.clone(), into.clone(), from.clone());
+    let rec = crate::util::rec(b, false, true, move || asca::run(&[RuleGroup::from_rules(vec![t2])], &[w2], &i2, &f2));
+    let (outk, detail, site) = match &rec.result {
+        Ok(Ok(_)) => ("ok", String::new(), 0i64),
+        Ok(Err(e)) => ("err", err_key(e), 0),
+        Err(p) => if let Some(bx) = p.downcast_ref::<v::BudgetExhausted>() { ("budget", format!("loop site {}", bx.site), bx.site as i64) } else { ("panic", panic_msg(p), 0) },
+    };
+    sum.vectors += 1; sum.count(outk, 1); sum.count(kind, 1);
+    if outk != "budget" { let m = sum.extra.get("max_ticks_of_a_returning_call").and_then(|x| x.as_u64()).unwrap_or(0); if rec.ticks > m { sum.extra.insert("max_ticks_of_a_returning_call".into(), json!(rec.ticks)); } }
+    if outk == "ok" { sum.nontrivial += 1; }
+    let ticks = ticks_json(&rec.events, 300);
+    // the tracer must return too
+    let (t3, w3) = (text.clone(), wt.clone());
+    let i3 = into.clone();
+    let rec2 = crate::util::rec(b, false, false, move || asca::get_trace_string(&[RuleGroup::from_rules(vec![t3])], w3, &i3).map(|_| ()));
+    let out2 = match &rec2.result { Ok(_) => "ret", Err(p) => if p.downcast_ref::<v::BudgetExhausted>().is_some() { "budget" } else { "panic" } };
+    let detail2 = match &rec2.result { Ok(_) => String::new(), Err(p) => panic_msg(p) };
+    w.put(json!({"cls": kind, "out": outk, "out2": out2, "site": site, "nticks": rec.ticks as i64, "ticks": ticks}),
+          json!({"rule": text, "word": wt, "into": into, "from": from, "outcome": outk, "detail": detail, "trace_outcome": out2, "trace_detail": detail2, "budget": b}));
+    if sum.samples.len() < 5 { sum.sample(|| json!({"kind": kind, "rule": text, "word": wt, "outcome": outk, "detail": detail})); }
+}
+
 pub fn record(prop: &str, rules_file: &str, out: &str, nwords: usize) {
     let t = tables::load();
     let seed = env_u64("VERIF_SEED", 1);
@@ -229,6 +258,9 @@ pub fn record(prop: &str, rules_file: &str, out: &str, nwords: usize) {
                                   format!("* > e / _{st}"), format!("* > e / {st}_"), format!("* > $ / a_{st}"), format!("* > e / {st} $_")] { sweep.push(r); }
                     }
                 }
+                // every template once more with the absent literal wearing a modifier block (matched through its matrix, not by equality)
+                let dressed: Vec<String> = sweep.iter().filter(|t| t.contains(" q ") || t.starts_with("q ")).map(|t| t.replacen("q ", "q:[-long] ", 1)).collect();
+                sweep.extend(dressed);
                 for text in sweep {
                     if v::parse_rules(&[RuleGroup::from_rules(vec![text.clone()])]).is_err() { sum.count("sweep_rules_rejected_by_parser", 1); continue; }
                     for _ in 0..nwords {
@@ -363,26 +395,29 @@ pub fn record(prop: &str, rules_file: &str, out: &str, nwords: usize) {
                         4 if kind == "noise" => (vec![noise(&mut rng)], vec![noise(&mut rng)]),
                         _ => (vec![], vec![]),
                     };
-                    let (t2, w2, i2, f2) = (text.clone(), wt.clone(), into.clone(), from.clone());
-                    let rec = v::record(b, false, true, move || asca::run(&[RuleGroup::from_rules(vec![t2])], &[w2], &i2, &f2));
-                    let (outk, detail, site) = match &rec.result {
-                        Ok(Ok(_)) => ("ok", String::new(), 0i64),
-                        Ok(Err(e)) => ("err", err_key(e), 0),
-                        Err(p) => if let Some(bx) = p.downcast_ref::<v::BudgetExhausted>() { ("budget", format!("loop site {}", bx.site), bx.site as i64) } else { ("panic", panic_msg(p), 0) },
-                    };
-                    sum.vectors += 1; sum.count(outk, 1); sum.count(kind, 1);
-                    if outk != "budget" { let m = sum.extra.get("max_ticks_of_a_returning_call").and_then(|x| x.as_u64()).unwrap_or(0); if rec.ticks > m { sum.extra.insert("max_ticks_of_a_returning_call".into(), json!(rec.ticks)); } }
-                    if outk == "ok" { sum.nontrivial += 1; }
-                    let ticks = ticks_json(&rec.events, 300);
-                    // the tracer must return too
-                    let (t3, w3) = (text.clone(), wt.clone());
-                    let i3 = into.clone();
-                    let rec2 = v::record(b, false, false, move || asca::get_trace_string(&[RuleGroup::from_rules(vec![t3])], w3, &i3).map(|_| ()));
-                    let out2 = match &rec2.result { Ok(_) => "ret", Err(p) => if p.downcast_ref::<v::BudgetExhausted>().is_some() { "budget" } else { "panic" } };
-                    let detail2 = match &rec2.result { Ok(_) => String::new(), Err(p) => panic_msg(p) };
-                    w.put(json!({"cls": kind, "out": outk, "out2": out2, "site": site, "nticks": rec.ticks as i64, "ticks": ticks}),
-                          json!({"rule": text, "word": wt, "into": into, "from": from, "outcome": outk, "detail": detail, "trace_outcome": out2, "trace_detail": detail2, "budget": b}));
-                    if sum.samples.len() < 5 { sum.sample(|| json!({"kind": kind, "rule": text, "word": wt, "outcome": outk, "detail": detail})); }
+                    judge_c02(&mut w, &mut sum, &text, &wt, &into, &from, b, kind);
+                }
+            }
+            if env_u64("VERIF_SWEEPS", 1) == 1 {
+                // systematic stratum: the length bookkeeping of multi-element substitutions. Every length modifier on the first output of a
+                // two/three-element rule, every length state (short, long, overlong) of the first target, the rest in the same or the next syllable.
+                const LENMODS: [&str; 9] = ["[+long]", "[-long]", "[+overlong]", "[-overlong]", "[+long, -overlong]", "[+long, +overlong]", "[-long, -overlong]", "a:[+long]", "[+long, +stress]"];
+                for m1 in LENMODS { for m2 in ["[+voi]", "d", "[+long]", "[-long]"] {
+                    for rule in [format!("V C > {m1} {m2}"), format!("C V > {m2} {m1}"), format!("V C C > {m1} {m2} {m2}"), format!("V:[+overlong] C > {m1} {m2}"), format!("V C > {m1} {m2} / _#"), format!("V:[+long] > {m1} t")] {
+                        for wt in ["pat", "pa:t", "pa::t", "pa::ts", "pa:.ta", "a::t.ta", "ta::", "a:t:a:", "pa::t:s", "ˈpa::t5"] {
+                            judge_c02(&mut w, &mut sum, &rule, wt, &[], &[], 20_000, "length-sweep");
+                        }
+                    }
+                } }
+                // systematic stratum: the alias grammar. Every element shape x every modifier kind (binary, suprasegmental, tone, alpha, node, unknown)
+                // x every replacement shape, as a romaniser and as a deromaniser.
+                const AMODS: [&str; 15] = ["", "+long", "-long", "+overlong", "+stress", "-sec.stress", "tone: 55", "tone: 123456", "Avoi", "-Avoi", "+place", "-labial", "+voi, -voi", "+foo", "αlong"];
+                for m in AMODS {
+                    let els: Vec<String> = if m.is_empty() { vec!["a".into(), "[]".into(), "V".into(), "$".into(), "t a".into()] } else { vec![format!("a:[{m}]"), format!("[{m}]"), format!("V:[{m}]"), format!("t a:[{m}]"), format!("%:[{m}]")] };
+                    for el in &els {
+                        for rhs in ["X", "+X", "*", "+", "$"] { for wt in ["ta.ta", "ta:55", "ˈxa"] { judge_c02(&mut w, &mut sum, "q > q", wt, &[], &[format!("{el} > {rhs}")], 20_000, "alias-sweep"); } }
+                        for lhs in ["x", "+x", "xy"] { for wt in ["xa.ta", "taxy", "x"] { judge_c02(&mut w, &mut sum, "q > q", wt, &[format!("{lhs} > {el}")], &[], 20_000, "alias-sweep"); } }
+                    }
                 }
             }
             let _ = n;
